@@ -944,6 +944,12 @@ class Sim(object):
             elif kind == "reply":
                 from . import httpref
                 out.extend(httpref.build_reply(part[1], st.request))
+            elif kind == "reply_auto":
+                # the canonical reply, accepting permessage-deflate iff the request offered it
+                from . import httpref
+                offered = st.request is not None and b"permessage-deflate" in st.request
+                out.extend(httpref.build_reply(
+                    httpref.canonical_spec(extensions=["permessage-deflate"]) if offered else None, st.request))
             elif kind == "bytes":
                 out.extend(part[1])
             else:
